@@ -203,8 +203,12 @@ const (
 	histSize  = 48
 )
 
+var histAllSize = [2]int{3000, 8000}
+
 var (
 	histRings [2][]histEntry // 0: accepted, 1: rejected
+	histAll   [2][]histEntry // reservoir samples over the whole run
+	histSeen  [2]int
 	histSeq   int
 	histRand  uint64
 )
@@ -214,31 +218,43 @@ func histNext(n int) int {
 	return int((histRand >> 33) % uint64(n))
 }
 
+// parses the text of e again and prints the HIST line; [last] = the text parsed just before
+func histAgain(e *histEntry, last []byte) {
+	again, _ := parseAll(e.text, 1)
+	f := e.first
+	again.aliased, f.aliased = false, false
+	if again == f {
+		fmt.Fprintf(w, "HIST %s-history-%s same\n", e.mode, f.kind)
+		return
+	}
+	cmp := func(a, b string) string {
+		if a == b {
+			return "same"
+		}
+		return "differs"
+	}
+	fmt.Fprintf(w, "HIST %s-history-%s diff first=%s:%d parses-in-between=%d was=%s@%x:%x:%x now=%s@%x:%x:%x defs=%s error-text=%s t:%s last-parsed-before:%s\n",
+		e.mode, f.kind, e.mode, e.n, histSeq-e.seq, f.kind, f.pos.Line, f.pos.Column, f.pos.Offset,
+		again.kind, again.pos.Line, again.pos.Column, again.pos.Offset, cmp(f.dump, again.dump), cmp(f.msg, again.msg),
+		hex.EncodeToString(e.text), hex.EncodeToString(last))
+}
+
+// at the end of the run: every text of the two reservoirs once more, with the whole run behind it
+func histEpilogue() {
+	for k := range histAll {
+		for i := range histAll[k] {
+			histAgain(&histAll[k][i], nil)
+		}
+	}
+}
+
 func history(mode string, n int, text []byte, r result) {
 	histSeq++
 	if histSeq%histEvery == 0 {
 		for k := range histRings {
-			if len(histRings[k]) == 0 {
-				continue
+			if len(histRings[k]) > 0 {
+				histAgain(&histRings[k][histNext(len(histRings[k]))], text)
 			}
-			e := &histRings[k][histNext(len(histRings[k]))]
-			again, _ := parseAll(e.text, 1)
-			f := e.first
-			again.aliased, f.aliased = false, false
-			if again == f {
-				fmt.Fprintf(w, "HIST %s-history-%s same\n", e.mode, f.kind)
-				continue
-			}
-			cmp := func(a, b string) string {
-				if a == b {
-					return "same"
-				}
-				return "differs"
-			}
-			fmt.Fprintf(w, "HIST %s-history-%s diff first=%s:%d parses-in-between=%d was=%s@%x:%x:%x now=%s@%x:%x:%x defs=%s error-text=%s t:%s last-parsed-before:%s\n",
-				e.mode, f.kind, e.mode, e.n, histSeq-e.seq, f.kind, f.pos.Line, f.pos.Column, f.pos.Offset,
-				again.kind, again.pos.Line, again.pos.Column, again.pos.Offset, cmp(f.dump, again.dump), cmp(f.msg, again.msg),
-				hex.EncodeToString(e.text), hex.EncodeToString(text))
 		}
 	}
 	k := -1
@@ -252,6 +268,13 @@ func history(mode string, n int, text []byte, r result) {
 		return
 	}
 	e := histEntry{mode: mode, n: n, seq: histSeq, text: append([]byte(nil), text...), first: r}
+	// reservoir: a uniform sample of ALL accepted / rejected texts of the run, parsed again at its end
+	histSeen[k]++
+	if len(histAll[k]) < histAllSize[k] {
+		histAll[k] = append(histAll[k], e)
+	} else if j := histNext(histSeen[k]); j < histAllSize[k] {
+		histAll[k][j] = e
+	}
 	if len(histRings[k]) < histSize {
 		histRings[k] = append(histRings[k], e)
 	} else if histNext(6) == 0 {
@@ -820,4 +843,5 @@ func main() {
 	default:
 		panic("unknown mode " + mode)
 	}
+	histEpilogue()
 }
